@@ -34,12 +34,13 @@ VARIABLES
     pend,     \* [pid -> [fid -> "started" | "recorded"]] results this process still owes
     fresh,    \* [pid -> file ids whose row this process has read since it last obtained their lock]
     gone,     \* pids that will never log again without having logged Exit (killed / panicked)
+    runt,     \* [target name as the script itself reports it -> set of script pids between SBegin and SEnd]
     busy,     \* [pid -> targets this builder found locked by somebody else and has not examined under their lock since]
     bad       \* "" or why the last event breaks the protocol
 
-vars == <<l, lock, run, pend, fresh, gone, busy, bad>>
+vars == <<l, lock, run, pend, fresh, gone, runt, busy, bad>>
 
-Init == l = 1 /\ lock = << >> /\ run = << >> /\ pend = << >> /\ fresh = << >> /\ gone = {} /\ busy = << >> /\ bad = ""
+Init == l = 1 /\ lock = << >> /\ run = << >> /\ pend = << >> /\ fresh = << >> /\ gone = {} /\ runt = << >> /\ busy = << >> /\ bad = ""
 
 e == Rec[l]
 
@@ -71,6 +72,9 @@ Check ==
                              ELSE IF Get(run, e.fid, {}) # {} THEN "script started while another one runs for the same target"
                              ELSE ""
       [] e.ev = "SBegin"  -> IF Get(run, e.fid, {}) # {} THEN "two scripts of one target overlap"
+                             \* the same by the name the script itself reports (two records / two locks for one file would
+                             \* escape a check by file id)
+                             ELSE IF e.t # "" /\ Get(runt, e.t, {}) # {} THEN "two scripts of one target (by name) overlap"
                              ELSE IF ~MayTouch(e.par, e.fid, e.unl, e.anc) THEN "script runs while its starter does not hold the lock"
                              ELSE ""
       [] e.ev = "SEnd"    -> ""
@@ -132,6 +136,10 @@ Next ==
     /\ IF e.ev = "Reset" THEN fresh' = << >>
        ELSE IF e.ev = "Exit" THEN fresh' = Drop(fresh, e.pid)
        ELSE IF e.ev \in {"Take", "Load"} THEN TRUE ELSE UNCHANGED fresh
+    /\ runt' = IF e.ev = "Reset" THEN << >>
+               ELSE IF e.ev = "SBegin" /\ e.t # "" THEN Put(runt, e.t, Get(runt, e.t, {}) \cup {e.pid})
+               ELSE IF e.ev = "SEnd" /\ e.t # "" THEN Put(runt, e.t, Get(runt, e.t, {}) \ {e.pid})
+               ELSE runt
     /\ busy' = IF e.ev = "Reset" THEN << >>
                ELSE IF e.ev = "Busy" THEN Put(busy, e.pid, Get(busy, e.pid, {}) \cup {e.fid})
                ELSE IF e.ev = "Take" THEN Put(busy, e.pid, Get(busy, e.pid, {}) \ {e.fid})
@@ -141,7 +149,8 @@ Next ==
 Spec == Init /\ [][Next]_vars
 
 Accepted == bad = ""
-Mutex == \A f \in DOMAIN run : Cardinality(run[f]) <= 1
+Mutex == /\ \A f \in DOMAIN run : Cardinality(run[f]) <= 1
+         /\ \A t \in DOMAIN runt : Cardinality(runt[t]) <= 1
 
 View == <<l, bad>>
 Alias == [l |-> l, bad |-> bad, lock |-> lock, run |-> run, pend |-> pend, fresh |-> fresh, busy |-> busy,
